@@ -116,6 +116,8 @@ class Executor:
         self.loop_bound = loop_bound
         self.solver = z3.Solver()
         self.solver.set('timeout', query_timeout_ms)
+        self.query_timeout_ms = query_timeout_ms
+        self.branch_timeout_ms = max(1500, query_timeout_ms // 6)
         self.pc = []
         self.nfresh = 0
         self.stats = {'queries': 0, 'solver_ms': 0.0, 'unknown': 0, 'calls': 0, 'max_query_ms': 0.0}
@@ -187,8 +189,11 @@ class Executor:
             self.decision_notes.append(note)
             self.assume(c if d else z3.Not(c))
             return bool(d)
+        # feasibility checks get a short budget; `unknown` keeps the branch (over-approximation, never a pass by omission)
+        self.solver.set('timeout', self.branch_timeout_ms)
         rt = self.check(c)
         rf = self.check(z3.Not(c))
+        self.solver.set('timeout', self.query_timeout_ms)
         t_ok = rt != z3.unsat
         f_ok = rf != z3.unsat
         if t_ok and f_ok:
